@@ -542,7 +542,7 @@ pub fn structured_cases(thorough: bool) -> Vec<FileCase> {
         out.push(FileCase { label: format!("C/all-empty-values/{}", codec_name(codec)), cfg: base.clone(), entries: k2_fixed(&mut rng, 900, 0) });
     }
     // D. huge entries
-    for &codec in &[CompressionType::None, CompressionType::Snappy, CompressionType::Lz4] {
+    for &codec in codecs().iter().filter(|c| !cfg!(miri) || **c == CompressionType::None) {
         let mut e = k2_fixed(&mut rng, 40, 5);
         e[20].1 = rng.bytes(1 << 20);
         let mut big_key = e[30].0.clone();
